@@ -38,6 +38,14 @@ LAMBDAS = {
 }
 
 
+def _K1(*a):
+    return a[0] if a else 0
+
+
+def _K2(*a):
+    return 0
+
+
 def shapes():
     api = snapshot.api()
     D = api.Decimal
@@ -71,6 +79,7 @@ def shapes():
         'floats': lambda: [1.5, 2.25, 3.0],
         'mixed-num': lambda: [1, 2.5, D(3), True, D('0.1')],
         'fdict': lambda: {'a': 0.5, 'b': 2, 'c': [1.5]},
+        'fns': lambda: [_K1, _K2, _K1],
         'long-desc': lambda: [D(100 - i) for i in range(100)],
         'long-strs': lambda: ['s%03d' % (200 - i) for i in range(150)],
     }
@@ -91,7 +100,10 @@ def deep(v, memo, order):
     if isinstance(v, tuple):
         return ('T', [deep(x, memo, order) for x in v])
     if callable(v):
-        return 'fn'
+        if id(v) not in memo:
+            order[0] += 1
+            memo[id(v)] = order[0]
+        return ('fn', memo[id(v)])
     return (type(v).__name__, str(v))
 
 
